@@ -527,6 +527,9 @@ Definition dec_denotes (n : numsp) : dec :=
      d_exp := exp_value (n_exp n) - Z.of_nat (length (n_fp n));
      d_negzero := n_neg n && (co =? 0)%N |}.
 
+(* the WRITTEN exponent can be read by strconv.ParseInt(_, 10, 64) -- a predicate on the spelling *)
+Definition written_exp_int64 (n : numsp) : bool := in_int64 (exp_value (n_exp n)).
+
 Definition isD (c : N) : bool := ((c =? 68) || (c =? 100))%N.
 Definition pd_step1 (inp : list N) : res (Z * list N) :=
   match split_at_first isD inp [] with
@@ -534,20 +537,19 @@ Definition pd_step1 (inp : list N) : res (Z * list N) :=
     match ex with
     | [] => Err
     | _ => match go_signed_val 10 ex with
-           | Some z => if in_int32 z then Ok (z, m) else Err
+           | Some z => if in_int64 z then Ok (z, m) else Err
            | None => Err
            end
     end
   | None => Ok (0%Z, inp)
   end.
-Definition pd_step2 (e0 : Z) (inp : list N) : res (Z * list N) :=
+Definition pd_step2 (e0 : Z) (inp : list N) : Z * list N :=
   match split_at_first (fun c => (c =? 46)%N) inp [] with
-  | Some (ip, fp) =>
-    let e := (e0 - Z.of_nat (length fp))%Z in
-    if (e <? -2147483648)%Z then Err else Ok (e, ip ++ fp)
-  | None => Ok (e0, inp)
+  | Some (ip, fp) => (wrap64z (e0 - wrap64z (Z.of_nat (length fp))), ip ++ fp)
+  | None => (e0, inp)
   end.
 Definition pd_step3 (e1 : Z) (inp : list N) : res dec :=
+  if negb (in_int32 e1) then Err else
   match go_signed_val 10 inp with
   | None => Err
   | Some n =>
@@ -556,8 +558,14 @@ Definition pd_step3 (e1 : Z) (inp : list N) : res dec :=
   end.
 Lemma pd_unfold c r :
   parse_decimal_text (c :: r) =
-  bind (pd_step1 (c :: r)) (fun '(e0, inp) => bind (pd_step2 e0 inp) (fun '(e1, inp) => pd_step3 e1 inp)).
-Proof. reflexivity. Qed.
+  bind (pd_step1 (c :: r)) (fun '(e0, inp) => let '(e1, inp) := pd_step2 e0 inp in pd_step3 e1 inp).
+Proof.
+  unfold parse_decimal_text, pd_step1, pd_step2, pd_step3, isD.
+  destruct (split_at_first _ (c :: r) []) as [[m ex]|]; [|cbn [bind]].
+  - destruct ex as [|x ex]; [reflexivity|]. destruct (go_signed_val 10 (x :: ex)) as [z|]; [|reflexivity].
+    destruct (in_int64 z); [|reflexivity]. cbn [bind]. destruct (split_at_first _ m []) as [[ip fp]|]; reflexivity.
+  - destruct (split_at_first _ (c :: r) []) as [[ip fp]|]; reflexivity.
+Qed.
 
 Lemma split_found (p : N -> bool) : forall a c b acc,
   Forall (fun x => p x = false) a -> p c = true -> split_at_first p (a ++ c :: b) acc = Some (rev acc ++ a, b).
@@ -601,15 +609,26 @@ Proof.
   intros H. destruct c as [|q]; [reflexivity|]. do 6 (try (destruct q as [q|q|]; try reflexivity)); congruence.
 Qed.
 
-(* ParseDecimal gives the denoted decimal, provided the WRITTEN exponent fits int32 (the known defect:
-   the range check is made on the written exponent, not on the exponent of the value) *)
-Theorem parse_decimal_spelling n :
+Lemma wrap64z_sub w l : in_int64 w = true -> in_int32 (w - l) = true -> wrap64z (w - wrap64z l) = w - l.
+Proof. unfold in_int64, in_int32, wrap64z. lia. Qed.
+Lemma wrap64z_sub_out w l : in_int64 w = true -> 0 <= l < 4611686018427387904 -> in_int32 (w - l) = false ->
+  in_int32 (wrap64z (w - wrap64z l)) = false.
+Proof. unfold in_int64, in_int32, wrap64z. lia. Qed.
+
+(* ParseDecimal on the text of a decimal literal, in general: the written exponent must be readable as an
+   int64, the fraction digits lower it (in int64), and the result must fit int32 *)
+Lemma parse_decimal_spelling_gen n :
   num_wf n -> num_kind n = NKDecimal ->
-  in_int32 (exp_value (n_exp n)) = true -> -2147483648 <= d_exp (dec_denotes n) ->
-  parse_decimal_text (num_plain n) = Ok (dec_denotes n).
+  parse_decimal_text (num_plain n) =
+  if written_exp_int64 n then
+    let e1 := wrap64z (exp_value (n_exp n) - wrap64z (Z.of_nat (length (n_fp n)))) in
+    if in_int32 e1 then Ok {| d_coef := d_coef (dec_denotes n); d_exp := e1; d_negzero := d_negzero (dec_denotes n) |}
+    else Err
+  else Err.
 Proof.
-  intros (Hi & Hl & Hf & He) Hk Hr1 Hr2. destruct n as [neg iw ip dot fw fp e].
-  unfold num_kind, num_plain, dec_denotes in *. cbn [n_neg n_iw n_ip n_dot n_fw n_fp n_exp d_exp] in *.
+  intros (Hi & Hl & Hf & He) Hk. destruct n as [neg iw ip dot fw fp e].
+  unfold num_kind, num_plain, dec_denotes, written_exp_int64 in *.
+  cbn [n_neg n_iw n_ip n_dot n_fw n_fp n_exp d_exp d_coef d_negzero] in *.
   destruct (us_digits_plain _ _ _ Hi) as [Hip Hipn].
   destruct (frac_plain dot fw fp Hf) as [Hfp Hfp0].
   destruct (digits_not ip Hip) as [Hip1 Hip2]. destruct (digits_not fp Hfp) as [Hfp1 Hfp2].
@@ -624,7 +643,7 @@ Proof.
   { unfold mant. apply Forall_app; split; [auto|]. apply Forall_app; split; [auto|].
     destruct dot; [constructor; [reflexivity|auto]|constructor]. }
   assert (S1 : pd_step1 (sign_bytes neg ++ ip ++ (if dot then 46%N :: fp else []) ++ exp_text e)
-               = Ok (exp_value e, mant)).
+               = if in_int64 (exp_value e) then Ok (exp_value e, mant) else Err).
   { unfold pd_step1. replace (sign_bytes neg ++ ip ++ (if dot then 46%N :: fp else []) ++ exp_text e)
       with (mant ++ exp_text e) by (unfold mant; now rewrite <- !app_assoc).
     destruct e as [[[m sg] ed]|]; cbn [exp_text exp_value] in *.
@@ -639,24 +658,24 @@ Proof.
         - cbn [app go_signed_val]. apply go_digits_val_spec; auto.
         - apply (go_signed_val_spec 10 true ed Hed Hd'). }
       destruct (sg ++ ed) as [|x y] eqn:Ex; [destruct sg; [contradiction|discriminate]|].
-      rewrite G, Hr1. reflexivity.
+      rewrite G. reflexivity.
     - rewrite app_nil_r, (split_none isD mant [] HmD). reflexivity. }
-  rewrite S1. cbn [bind]. cbv beta iota.
-  assert (S2 : pd_step2 (exp_value e) mant = Ok (exp_value e - Z.of_nat (length fp), sign_bytes neg ++ ip ++ fp)).
+  rewrite S1. destruct (in_int64 (exp_value e)) eqn:H64; [|reflexivity]. cbn [bind]. cbv beta iota.
+  assert (S2 : pd_step2 (exp_value e) mant =
+               (wrap64z (exp_value e - wrap64z (Z.of_nat (length fp))), sign_bytes neg ++ ip ++ fp)).
   { unfold pd_step2, mant. destruct dot.
     - rewrite app_assoc, (split_found (fun c => (c =? 46)%N) (sign_bytes neg ++ ip) 46%N fp []);
-        [|apply Forall_app; split; auto|reflexivity]. cbn [rev app].
-      destruct (Z.ltb_spec (exp_value e - Z.of_nat (length fp)) (-2147483648)); [lia|]. now rewrite <- app_assoc.
+        [|apply Forall_app; split; auto|reflexivity]. cbn [rev app]. now rewrite <- app_assoc.
     - rewrite (Hfp0 eq_refl), !app_nil_r. rewrite split_none by (apply Forall_app; split; auto).
-      cbn [length]. now rewrite Z.sub_0_r. }
-  rewrite S2. cbn [bind]. cbv beta iota.
+      cbn [length]. f_equal. unfold in_int64, wrap64z in *. lia. }
+  rewrite S2. cbv beta iota zeta.
   unfold pd_step3.
+  destruct (in_int32 (wrap64z (exp_value e - wrap64z (Z.of_nat (length fp))))) eqn:H32; cbn [negb]; [|reflexivity].
   assert (Hall : Forall (digit_in 10) (ip ++ fp)).
   { apply (Forall_digit_in _ _ _ dec_digit_in). apply Forall_app; split; auto. }
   assert (Hnn : ip ++ fp <> []) by (destruct ip; [contradiction|discriminate]).
   rewrite (go_signed_val_spec 10 neg (ip ++ fp) Hnn Hall).
-  rewrite wrap32_negneg.
-  2:{ unfold in_int32 in Hr1. assert (0 <= Z.of_nat (length fp)) by lia. lia. }
+  rewrite wrap32_negneg by (unfold in_int32 in H32; lia).
   f_equal. f_equal.
   destruct neg; cbn [sign_bytes app sgn andb].
   - destruct (digits_value 10 (ip ++ fp)); reflexivity.
@@ -665,23 +684,45 @@ Proof.
     pose proof (starts45 c0 [] H) as H45. cbv beta iota in H45. rewrite H45. now rewrite andb_false_r.
 Qed.
 
-(* the full-strength statement (only the value's exponent has to fit int32) is false of the code:
-   0.5d2147483648 denotes 5 * 10^2147483647 and is rejected *)
-Definition parse_decimal_spelling_full : Prop := forall n,
-  num_wf n -> num_kind n = NKDecimal -> in_int32 (d_exp (dec_denotes n)) = true ->
+(* ParseDecimal gives the denoted decimal whenever the exponent of the VALUE fits int32: the written exponent may be
+   beyond int32 (0.5d2147483648 is 5d2147483647), it only has to be readable by ParseInt(_, 10, 64) *)
+Theorem parse_decimal_spelling n :
+  num_wf n -> num_kind n = NKDecimal ->
+  -2147483648 <= d_exp (dec_denotes n) <= 2147483647 ->
+  written_exp_int64 n = true ->
   parse_decimal_text (num_plain n) = Ok (dec_denotes n).
+Proof.
+  intros Hwf Hk Hr H64. rewrite (parse_decimal_spelling_gen n Hwf Hk), H64. cbv zeta.
+  unfold written_exp_int64 in H64. unfold dec_denotes in *. cbn [d_exp d_coef d_negzero] in *.
+  rewrite wrap64z_sub by (try exact H64; unfold in_int32; lia).
+  replace (in_int32 _) with true by (unfold in_int32; lia). reflexivity.
+Qed.
+
+(* outside that range the literal is refused with an error -- never a panic, never a wrapped exponent.  (The bound
+   on the number of fraction digits only says that the literal is a Go string: its length is an int.) *)
+Theorem parse_decimal_spelling_out_of_range n :
+  num_wf n -> num_kind n = NKDecimal ->
+  Z.of_nat (length (n_fp n)) < 4611686018427387904 ->
+  in_int32 (d_exp (dec_denotes n)) = false \/ written_exp_int64 n = false ->
+  parse_decimal_text (num_plain n) = Err.
+Proof.
+  intros Hwf Hk Hlen Hout. rewrite (parse_decimal_spelling_gen n Hwf Hk).
+  destruct (written_exp_int64 n) eqn:H64; [|reflexivity]. destruct Hout as [Hout|Hout]; [|discriminate]. cbv zeta.
+  unfold written_exp_int64 in H64. unfold dec_denotes in Hout. cbn [d_exp] in Hout.
+  rewrite wrap64z_sub_out by (try assumption; lia). reflexivity.
+Qed.
+
+(* the literal that the 32-bit parse of the written exponent used to refuse, and both ends of the range *)
 Definition dexp_witness : numsp :=
   {| n_neg := false; n_iw := [48%N]; n_ip := [48%N]; n_dot := true; n_fw := [53%N]; n_fp := [53%N];
      n_exp := Some (100%N, [], s "2147483648") |}.
-Theorem parse_decimal_spelling_full_refuted : ~ parse_decimal_spelling_full.
+Lemma dexp_witness_wf : num_wf dexp_witness.
 Proof.
-  intros H. specialize (H dexp_witness). assert (W : num_wf dexp_witness).
-  { unfold num_wf, dexp_witness. cbn [n_iw n_ip n_dot n_fw n_fp n_exp]. split; [|split; [|split]].
-    - repeat constructor.
-    - left; reflexivity.
-    - right. repeat constructor.
-    - cbn. split; [auto|]. split; [auto|]. split; [discriminate|]. repeat constructor. }
-  specialize (H W eq_refl eq_refl). vm_compute in H. discriminate H.
+  unfold num_wf, dexp_witness. cbn [n_iw n_ip n_dot n_fw n_fp n_exp]. split; [|split; [|split]].
+  - repeat constructor.
+  - left; reflexivity.
+  - right. repeat constructor.
+  - cbn. split; [auto|]. split; [auto|]. split; [discriminate|]. repeat constructor.
 Qed.
 
 (* ---- floats: the text handed to strconv.ParseFloat ------------------------------------------------------------------ *)
